@@ -123,19 +123,9 @@ def handle (toks : List String) : String :=
   | ["resp", so, meas, bits, a, phis] =>
     match bits.toNat?, parseRat a, parseRatList phis with
     | some b, some a, some ph =>
-      let es := enclList b ph
-      let bb := sqrtLo (1 - a * a) b
       let m : Option String := if meas = "-" then none else some meas
-      match response Cx.I (Cx.ofRat (1 / 2)) so m (es.map fun e => (Cx.ofRat e.c, Cx.ofRat e.s))
-              (Cx.ofRat a) (Cx.ofRat bb) with
-      | .ok z =>
-        -- factors W P_k: ‖W̃‖∞ ≤ |a| + b̃ + 2^-b, ‖P̃‖∞ ≤ |c| + |s|; errors 2^-b and 2δ
-        let wn := qabs a + bb
-        let wη := 1 / (2 : Rat) ^ b
-        let bounds := es.map fun e =>
-          let pn := qabs e.c + qabs e.s
-          (wn * pn, wη * (pn + 2 * e.δ) + wn * (2 * e.δ))
-        s!"{showCx z} {showRat (prodErr bounds (1, 0)).2}"
+      match respBall so m b a ph with
+      | .ok (z, e) => s!"{showCx z} {showRat e}"
       | .error er => showErr er
     | _, _, _ => bad
   -- basis conversions ------------------------------------------------------------------
